@@ -5,7 +5,7 @@ from . import c01, c02
 QUICK = {'pip': [[[3]], [[4]], [[3, 3]], [[5]], [[6]], [[3], [3]]],
          'line_exact': [([1], 1), ([2], 1), ([3], 2), ([4], 1), ([2, 2], 2), ([1, 3], 1)],
          'multipoint': [0, 1, 3]}
-THOROUGH = {'pip': [[[3]], [[4]], [[3, 3]], [[5]], [[6]], [[7]], [[8]], [[4, 4]], [[3, 3, 3]], [[3], [3]], [[4], [3]], [[3, 3], [3]]],
+THOROUGH = {'pip': [[[3]], [[4]], [[3, 3]], [[5]], [[6]], [[7]], [[8]], [[9]], [[10]], [[4, 4]], [[5, 5]], [[3, 3, 3]], [[4, 3, 3]], [[3], [3]], [[4], [3]], [[3, 3], [3]], [[4], [4], [3]]],
             'line_exact': [([1], 1), ([2], 1), ([3], 2), ([4], 1), ([2, 2], 2), ([1, 3], 1), ([6], 2), ([8], 1), ([3, 3], 2), ([2, 2, 2], 1)],
             'multipoint': [0, 1, 3, 5]}
 
